@@ -359,3 +359,7 @@ func (w *World) WCCounters() string {
 	}
 	return s
 }
+
+func writecacheCounters(w *World) (uint64, []string, []uint64, bool) {
+	return writecache.VerifSWCounters(w.Sh.VerifSWWriteCache())
+}
